@@ -133,6 +133,9 @@ func runProperty(cfg *PropConfig, tier string, seed int) *propResult {
 			}
 		}
 	}
+	for a := range E.axiomsUsed {
+		res.trusted = append(res.trusted, "definitional axiom "+a+": "+E.contracts.Axioms[a].Text)
+	}
 	for f := range E.contracts.Frozen {
 		res.trusted = append(res.trusted, "frozen field "+f+" (assumed not written after construction)")
 	}
